@@ -497,8 +497,8 @@ def exec_while(ex: Exec, st: ast.While) -> None:
     my_ordinal = ex.loop_counter
     if st.orelse:
         raise Unsupported("while/else")
-    if spec is None:
-        spec = default_loop_spec(ex, st, my_ordinal)
+    if spec is None or "inv" not in spec:
+        spec = {**default_loop_spec(ex, st, my_ordinal), **(spec or {})}
     names = assigned_names([st])
     label = f"L{my_ordinal}"
     entry_locals = dict(ex.locals)
@@ -514,6 +514,14 @@ def exec_while(ex: Exec, st: ast.While) -> None:
             else:
                 ex.assume(b)
 
+    def variant():
+        env = dict(ex.spec_env())
+        env.update({k: v for k, v in ex.locals.items() if not k.startswith("_")})
+        v = ex.spec_eval(spec["variant"].body if isinstance(spec["variant"], ast.Lambda) else spec["variant"], env, ex.pre_heap)
+        if v.ty.kind not in ("int", "bool"):
+            raise Unsupported("loop variant must be an integer expression")
+        return S.un_int(v.t)
+
     inv("inv.establish", True)
     which = ex.choose(2, None, label + "c")
     havoc_for_loop(ex, names, st, heap=spec.get("footprint") != "none")
@@ -523,6 +531,7 @@ def exec_while(ex: Exec, st: ast.While) -> None:
         if not is_true:
             if not ex.eval_cond(st.test):
                 raise PathEnd("guard-false-on-iteration-path")
+        v0 = variant() if "variant" in spec else None
         try:
             ex.exec_block(st.body)
         except _Continue:
@@ -532,6 +541,11 @@ def exec_while(ex: Exec, st: ast.While) -> None:
             ex.tags.append(label + "brk")
             return
         inv("inv.preserve", True)
+        if v0 is not None:
+            # termination: the measure is bounded below whenever another iteration starts
+            # and strictly smaller at the end of every iteration that continues the loop
+            ex.check(v0 >= 0, "variant.bounded", label)
+            ex.check(variant() < v0, "variant.decreases", label)
         raise PathEnd("loop-iteration")
     ex.loop_counter = _skip_loops(st, my_ordinal)
     if is_true:
